@@ -203,6 +203,7 @@ type txState struct {
 	committed  bool // an explicit Commit through the handle succeeded
 	commitDump string // what the transaction saw just before that Commit
 	fired      int
+	topOps     int // top-level create/delete requests so far (every second one goes through a bucket handle's Tx())
 	viol       []string
 	noOracle   bool
 }
@@ -707,6 +708,19 @@ func (s *txState) kill(p [][]byte) {
 	}
 }
 
+// topTx: the transaction a top-level create/delete is addressed to.  Callers reach the transaction either directly or
+// through a bucket they hold (`ns.Tx()`, the idiom of the wallet's drop-and-recreate and migration helpers); both are
+// the same database transaction, so every second request takes the second route when a live handle exists.
+func (s *txState) topTx() walletdb.ReadWriteTx {
+	s.topOps++
+	if s.topOps%2 == 0 && !s.closed && s.writable && s.lastHandle != nil {
+		if t := s.lastHandle.Tx(); t != nil {
+			return t
+		}
+	}
+	return s.tx
+}
+
 func (s *txState) execMutator(f []string) string {
 	p, _ := parsePath(f[1])
 	var k, val []byte
@@ -747,13 +761,16 @@ func (s *txState) execMutator(f []string) string {
 		_, err = b.CreateBucket(k)
 	case "mkif":
 		if len(p) == 0 {
-			_, err = s.tx.CreateTopLevelBucket(k)
+			_, err = s.topTx().CreateTopLevelBucket(k)
 		} else {
 			_, err = b.CreateBucketIfNotExists(k)
 		}
 	case "rmb":
 		if len(p) == 0 {
-			err = s.tx.DeleteTopLevelBucket(k)
+			err = s.topTx().DeleteTopLevelBucket(k)
+			if err == nil && !s.closed && s.writable && !s.noOracle && s.tx.ReadWriteBucket(k) != nil {
+				s.v("read-your-writes", "ReadWriteBucket still returns a top-level bucket that this transaction has just deleted")
+			}
 		} else {
 			err = b.DeleteNestedBucket(k)
 		}
